@@ -1003,7 +1003,7 @@ class Steward(object):
         data['fragment'] = fragment
 
         data['headers'] = copy.copy(self.requestant.headers)  # make copy
-        data['body'] = self.requestant.body.decode('utf-8')
+        data['body'] = self.requestant.body.decode('utf-8', 'replace')  # body need not be text
         data['data'] = copy.copy(self.requestant.data)  # make copy
 
         msg = self.responder.build(status=200, data=data)
@@ -1173,6 +1173,9 @@ class Porter(object):
                 steward.requestant.parse()
 
                 if steward.requestant.ended:
+                    if steward.requestant.errored:  # malformed request closes its own connection only
+                        self.closeConnection(ca)
+                        continue
                     steward.requestant.dictify()
                     console.concise("Parsed Request:\n{0} {1} {2}\n"
                                     "{3}\n{4}\n".format(steward.requestant.method,
